@@ -321,6 +321,19 @@ let codec_case (line : string) : string =
   | "dec" -> (match words rest with
               | h :: tl -> dres_str (decode (mk_cfg owned_arms (parse_ztab tl) []) (bytes_of_hex h))
               | [] -> dres_str (decode (mk_cfg owned_arms [] []) []))
+  | "dech" -> (match words rest with
+               | h :: tl ->
+                   let cfg = mk_cfg owned_arms (parse_ztab tl) [] in
+                   String.concat " ;; " (List.map (fun x ->
+                     if String.length x > 0 && x.[0] = 'T' then
+                       (match bytes_of_hex (String.sub x 1 (String.length x - 1)) with
+                        | [] -> "err eof"
+                        | v :: r -> if int_of_n v <> 131 then "err tag" else
+                            (match parse cfg (nat_of_int (List.length r + 2 + List.fold_left (fun acc (_, p, _) -> acc + List.length p + 2) 0 (parse_ztab tl))) r with
+                             | POk (t, rest) -> Printf.sprintf "ok %s rest=%s" (term_str t) (hex_of_bytes rest)
+                             | PErr k -> "err " ^ dkind_str k))
+                     else dres_str (decode cfg (bytes_of_hex x))) (String.split_on_char ',' h))
+               | [] -> failwith "dech")
   | "decb" -> (match words rest with
                | h :: tl ->
                    let data = bytes_of_hex h in
